@@ -207,14 +207,14 @@ Proof.
   apply gk_pick_outside. lia.
 Qed.
 
-Definition gk_Wf (wts : list F) (mf : F) : nat -> nat -> F := fun c q => nth q wts 0 * mf.
+Definition gk_Wf (wts : list F) (mf : list F) : nat -> nat -> F := fun c q => nth q wts 0 * nth c mf 0.
 
 Lemma gk_assemble_inv knots p nc nq pts wts mf At Bt Ct Dt Et S :
   gk_assemble F K knots p nc nq pts wts mf At Bt Ct Dt Et = SpOk S ->
   exists T, gk_table F K knots p pts = SpOk T /\ gk_spans_ok F p T nc nq = true /\
     S = (let dg := fun k => gk_diags F K p nc nq (gk_phi F K p T) (gk_Wf wts mf) (gk_at F K pts) (gk_at F K At) (gk_at F K Bt)
                               (gk_at F K Ct) (gk_at F K Dt) (gk_at F K Et) k (nc + p) in
-         GkAsm F p (nc + p) (dg GkMass) (dg GkK2) (dg GkPhiPsi) (dg GkDD) (dg GkD1) T).
+         GkAsm F p (nc + p) (dg GkMass) (dg GkK2) (dg GkPhiPsi) (dg GkDD) (dg GkD1) T Et).
 Proof.
   unfold gk_assemble. destruct (gk_table F K knots p pts) as [T| | | |]; cbn [sp_bind]; try discriminate.
   destruct (gk_spans_ok F p T nc nq) eqn:E; [|discriminate]. intros H. inversion H. exists T. repeat split. exact E.
@@ -526,21 +526,58 @@ Proof.
   unfold gk_solve_mode_func. intros H1 H2 H3 Ht. apply (gk_solve_rhs_linear _ _ _ _ _ _ _ _ _ _ _ _ _ H1 H2 H3).
   intros i Hi. unfold gk_rhs_func.
   rewrite !(gk_nth_map_seq (fun a => gsum nc (fun c => gsum nq (fun q =>
-        nth q wts 0 * mf * gk_phi F K (gka_p F S) (gka_tab F S) 0 a c q * gk_at F K pts c q * gk_at F K _ c q))) 0 _ _ i Hi).
+        nth q wts 0 * nth c mf 0 * gk_phi F K (gka_p F S) (gka_tab F S) 0 a c q * gk_at F K pts c q * gk_at F K (gka_E F S) c q * gk_at F K _ c q))) 0 _ _ i Hi).
   rewrite <- gs_lin2. apply gs_ext. intros c Hc. rewrite <- gs_lin2. apply gs_ext. intros q Hq.
   rewrite (Ht c q Hc Hq). ring.
 Qed.
 
-(** the right-hand side of the function path carries no factor E (rhoFactor): it is the load vector of rho itself *)
+(** the right-hand side of the function path: the load vector of E rho, sum w * B_a(x) * x * E(x) * rho(x) *)
 Theorem gk_rhs_func_spec S nc nq pts wts mf rhot lo hi i : (i < hi - lo)%nat ->
   nth i (gk_rhs_func F K S nc nq pts wts mf rhot lo hi) 0
   = gsum nc (fun c => gsum nq (fun q =>
-      gk_Wf wts mf c q * gk_phi F K (gka_p F S) (gka_tab F S) 0 (lo + i) c q * gk_at F K pts c q * gk_at F K rhot c q)).
+      gk_Wf wts mf c q * gk_phi F K (gka_p F S) (gka_tab F S) 0 (lo + i) c q * gk_at F K pts c q
+      * gk_at F K (gka_E F S) c q * gk_at F K rhot c q)).
 Proof.
   intros Hi. unfold gk_rhs_func.
   rewrite (gk_nth_map_seq (fun a => gsum nc (fun c => gsum nq (fun q =>
-        nth q wts 0 * mf * gk_phi F K (gka_p F S) (gka_tab F S) 0 a c q * gk_at F K pts c q * gk_at F K rhot c q))) 0 _ _ i Hi).
+        nth q wts 0 * nth c mf 0 * gk_phi F K (gka_p F S) (gka_tab F S) 0 a c q * gk_at F K pts c q * gk_at F K (gka_E F S) c q
+        * gk_at F K rhot c q))) 0 _ _ i Hi).
   reflexivity.
+Qed.
+
+(** for rho in the spline space (its values at the points are sum_b rho_b B_b(x)) the function path and the
+    discrete path have the same right-hand side, hence the same system *)
+Theorem gk_rhs_func_eq_discrete knots p nc nq pts wts mf At Bt Ct Dt Et S rho rhot lo hi :
+  gk_assemble F K knots p nc nq pts wts mf At Bt Ct Dt Et = SpOk S -> (hi <= nc + p)%nat ->
+  (forall c q, (c < nc)%nat -> (q < nq)%nat ->
+     gk_at F K rhot c q = gsum (nc + p) (fun b => gk_phi F K p (gka_tab F S) 0 b c q * nth b rho 0)) ->
+  gk_rhs_func F K S nc nq pts wts mf rhot lo hi = gk_rhs_discrete F K S lo hi rho.
+Proof.
+  intros H Hhi Hrho. unfold gk_rhs_func, gk_rhs_discrete. apply map_ext_in. intros a Ha. apply in_seq in Ha.
+  assert (Hnb : gka_nb F S = (nc + p)%nat /\ gka_p F S = p /\ gka_E F S = Et).
+  { destruct (gk_assemble_inv _ _ _ _ _ _ _ _ _ _ _ _ _ H) as [T [_ [_ ->]]]. cbv zeta. repeat split. }
+  destruct Hnb as [-> [Hp HE]].
+  rewrite (gs_ext (nc + p) _ (fun b => gsum nc (fun c => gsum nq (fun q =>
+     gk_Wf wts mf c q * gk_at F K Et c q * gk_phi F K p (gka_tab F S) 0 b c q * gk_phi F K p (gka_tab F S) 0 a c q
+     * gk_at F K pts c q * nth b rho 0)))).
+  2:{ intros b Hb. rewrite (gk_mass_is_weak_form _ _ _ _ _ _ _ _ _ _ _ _ _ a b H) by lia.
+      unfold gk_weak_mass. rewrite <- gs_scale_r. apply gs_ext. intros c _. rewrite <- gs_scale_r. reflexivity. }
+  rewrite (gs_swap (nc + p) nc). apply gs_ext. intros c Hc.
+  rewrite (gs_swap (nc + p) nq). apply gs_ext. intros q Hq.
+  rewrite HE, Hp, (Hrho c q Hc Hq).
+  rewrite <- gs_scale. apply gs_ext. intros b _. unfold gk_Wf. ring.
+Qed.
+
+Theorem gk_func_path_eq_discrete_path knots p nc nq pts wts mf At Bt Ct Dt Et S lN uN m buf rho rhot :
+  gk_assemble F K knots p nc nq pts wts mf At Bt Ct Dt Et = SpOk S ->
+  (forall c q, (c < nc)%nat -> (q < nq)%nat ->
+     gk_at F K rhot c q = gsum (nc + p) (fun b => gk_phi F K p (gka_tab F S) 0 b c q * nth b rho 0)) ->
+  gk_solve_mode_func F K S lN uN m buf nc nq pts wts mf rhot = gk_solve_mode F K S lN uN m buf rho.
+Proof.
+  intros H Hrho. unfold gk_solve_mode_func, gk_solve_mode.
+  rewrite (gk_rhs_func_eq_discrete _ _ _ _ _ _ _ _ _ _ _ _ _ rho rhot _ _ H); [reflexivity| |exact Hrho].
+  destruct (gk_assemble_inv _ _ _ _ _ _ _ _ _ _ _ _ _ H) as [T [_ [_ ->]]]. cbv zeta. cbn [gka_nb].
+  unfold gk_coeff_hi. lia.
 Qed.
 
 (** the returned coefficient vector satisfies the Galerkin system: for every test function a that is an
